@@ -151,15 +151,35 @@ def build_world(case, env, layout="tree", parent_behind=False):
     w.d = d = env.newdir()
     w.top = top = d + "/top"
     os.makedirs(top)
-    if case["shared"]:
+    if case["shared"] and case["shared"] != "late":
         # the branch uses the shared repository above it
         bz.init_repo(top, src, shared=True)
     w.path = path = top + "/t"
     spec = case["spec"]
     wt, models, idmap = _build(spec, path, src)
+    if case["shared"] == "late":
+        # a shared repository that has none of the revisions yet: the branch
+        # keeps its own repository until it is told to use the shared one
+        bz.init_repo(top, src, shared=True)
     w.tip = tip = spec["revs"][-1]["id"]
     g = history.graph_of(spec, ghosts=False)
-    # a parent branch (gives checkout / stacking something to refer to)
+    # the revision of the pending merge: one of the history that the tip has
+    # not merged, or an extra one that nothing but the tree will refer to
+    extra = None
+    if case["pending_merge"] and not case.get("clean") and layout != "branch":
+        anc = gm.ancestry(g, tip)
+        others = [r["id"] for r in spec["revs"] if r["id"] not in anc]
+        if others:
+            extra = others[0]
+        else:
+            revno, tipid = wt.branch.last_revision_info()
+            wt.commit("side", rev_id=b"extra-rev", timestamp=bz.T0 + 77777,
+                      timezone=0, committer=bz.COMMITTER, allow_pointless=True)
+            wt.branch.set_last_revision_info(revno, tipid)
+            wt.set_parent_ids([tipid])
+            extra = "extra-rev"
+    # a parent branch (gives checkout / stacking something to refer to); the
+    # tags are set afterwards, so the parent does not have them already
     lh = gm.lefthand(g, tip)
     if parent_behind and len(lh) >= 2:
         w.parent = wt.branch.controldir.sprout(
@@ -169,6 +189,9 @@ def build_world(case, env, layout="tree", parent_behind=False):
         w.parent = wt.branch.controldir.sprout(d + "/parent").open_branch()
         w.parent_in_step = True
     wt.branch.set_parent(w.parent.base)
+    if wt.branch.supports_tags():
+        for t, r in (spec.get("tags") or {}).items():
+            wt.branch.tags.set_tag(t, idmap[r])
     w.tree_path = path
     if layout == "branch":
         wt.branch.controldir.destroy_workingtree()
@@ -194,11 +217,8 @@ def build_world(case, env, layout="tree", parent_behind=False):
     m = tm.clone(models[tip])
     with wt.lock_write():
         bz.apply_ops_wt(wt, m, case["pending"])
-        if case["pending_merge"]:
-            anc = gm.ancestry(g, tip)
-            others = [r["id"] for r in spec["revs"] if r["id"] not in anc]
-            if others:
-                wt.set_parent_ids([bz.enc(tip), bz.enc(others[0])])
+        if extra is not None:
+            wt.set_parent_ids([bz.enc(tip), bz.enc(extra)])
         if case.get("conflicts"):
             # unresolved conflicts are part of the tree's pending state
             from breezy.bzr import conflicts as _c
@@ -213,11 +233,7 @@ def build_world(case, env, layout="tree", parent_behind=False):
 
 
 def _build(spec, path, fmt):
-    wt, models, idmap = history.build_wt(spec, path, fmt, tags=False)
-    if wt.branch.supports_tags():
-        for t, r in (spec.get("tags") or {}).items():
-            wt.branch.tags.set_tag(t, idmap[r])
-    return wt, models, idmap
+    return history.build_wt(spec, path, fmt, tags=False)
 
 
 # ---------------------------------------------------------------- upgrade
@@ -320,6 +336,7 @@ STEPS = ["branch", "tree", "checkout", "lightweight", "standalone",
          "checkout-to", "lightweight-to"]
 DIRECTED = [
     ["standalone", "use-shared"], ["use-shared", "standalone"],
+    ["use-shared"], ["use-shared", "lightweight"], ["use-shared", "checkout"],
     ["branch", "tree"], ["branch", "checkout"], ["branch", "lightweight"],
     ["lightweight", "tree"], ["lightweight", "branch"],
     ["lightweight", "checkout"], ["lightweight-to", "standalone", "tree"],
@@ -499,10 +516,14 @@ def reconfigure_cases(draw):
     case = draw(_base())
     case["clean"] = draw(st.sampled_from([False, False, True]))
     steps = draw(st.lists(st.sampled_from(STEPS), min_size=1, max_size=5))
+    if case["shared"] and draw(st.booleans()):
+        case["shared"] = "late"
     if draw(st.sampled_from([True, False, False])):
         steps = list(draw(st.sampled_from(DIRECTED))) + steps[:3]
-        if steps[0] in ("use-shared", "no-trees") or "use-shared" in steps[:3]:
-            case["shared"] = True
+        if steps[0] == "use-shared":
+            case["shared"] = "late"
+        elif steps[0] == "no-trees" or "use-shared" in steps[:3]:
+            case["shared"] = case["shared"] or True
     case["action"] = {"kind": "reconfigure", "steps": steps[:6],
                       "parent_behind": draw(st.sampled_from(
                           [False, False, False, True]))}
